@@ -288,6 +288,11 @@ class Interp:
     def coerce(self, st, v, ty):
         """adapt a value to a declared type (Int->Real, None->Opt)"""
         base = strip_opt(ty)
+        if isinstance(base, tuple) and base[0] == "Tuple" and isinstance(v.term, tuple):
+            # packing a Python tuple for storage in a container
+            from .vtypes import tuple_sort
+            _, mk, _ = tuple_sort(base)
+            return Val(base, mk(*[self.coerce(st, x, t).term for x, t in zip(v.term, base[1])]))
         if v.ty == "NoneT":
             if not is_opt(ty) and base not in ("Any",):
                 # storing None in a non-optional slot: keep as null/none (annotation was imprecise)
@@ -350,6 +355,19 @@ class Interp:
     def elem_val(self, st, kd, term, guard=None):
         """wrap a content element term of container class kd as Val (guard: the element is in the dom / in range)"""
         vt = kd.V
+        if isinstance(vt, tuple) and vt[0] == "Tuple":
+            # a stored tuple: unpack the datatype into a Python tuple of component values
+            from .vtypes import tuple_sort
+            _, _, accs = tuple_sort(vt)
+            comps = []
+            for a, cty in zip(accs, vt[1]):
+                cv = Val(cty, a(term))
+                if st.spec_depth == 0:
+                    st.assume_type_inv(cv)
+                else:
+                    self.spec_type_inv(st, cv, guard)
+                comps.append(cv)
+            return Val(vt, tuple(comps))
         v = Val(vt, term)
         if st.spec_depth == 0:
             st.assume_type_inv(v)
@@ -812,6 +830,9 @@ class Interp:
                 if st.spec_depth == 0 and st.decide(b.term == 0):
                     self.raise_(st, "ZeroDivisionError", node)
                 return Val("Real", z3.ToReal(a.term) / z3.ToReal(b.term))
+            if st.spec_depth > 0 and isinstance(op, (ast.Add, ast.Sub)) and ka in ("DT", "TD") and kb == "Int":
+                # specs may add microseconds to a datetime / timedelta directly
+                return Val(ka, a.term + b.term if isinstance(op, ast.Add) else a.term - b.term)
             raise Unsupported("datetime arithmetic %s %s %s" % (ka, type(op).__name__, kb))
         real = ka == "Real" or kb == "Real"
         if real:
@@ -838,6 +859,11 @@ class Interp:
             if st.spec_depth == 0 and st.decide(y == 0):
                 self.raise_(st, "ZeroDivisionError", node)
             return Val("Int", prelude.pymod(x, y))
+        if isinstance(op, ast.Mod) and real:
+            # float/Decimal modulo over the reals: x - y*floor(x/y) (floats treated as reals: stated assumption)
+            if st.spec_depth == 0 and st.decide(y == 0):
+                self.raise_(st, "ZeroDivisionError", node)
+            return Val("Real", x - y * z3.ToReal(z3.ToInt(x / y)))
         if isinstance(op, ast.Pow):
             ys = z3.simplify(y)
             if z3.is_rational_value(ys) or z3.is_int_value(ys):
